@@ -24,7 +24,7 @@ OPS = ['edit', 'edit', 'edit', 'lock', 'unlock', 'getconfig', 'delete', 'copy', 
 WD_CAPS = [CAP + 'with-defaults:1.0?basic-mode=explicit&also-supported=report-all,trim,report-all-tagged', CAP + 'with-defaults:1.0?basic-mode=report-all',
            CAP + 'with-defaults:1.0?also-supported=trim', CAP + 'with-defaults:1.0', CAP + 'with-defaults:1.0?basic-mode=trim&also-supported=',
            'urn:ietf:params:xml:ns:netconf:capability:with-defaults:1.0?basic-mode=explicit&also-supported=trim', None, None]
-WD_MODES = ['explicit', 'trim', 'report-all', 'report-all-tagged', ' Trim ', 'TRIM', 'Report-All\n', 'bogus', 'ex plicit', 'trim,', '\ttrim', 'trim\x0b']
+WD_MODES = ['explicit', 'trim', 'report-all', 'report-all-tagged', ' Trim ', 'TRIM', 'Report-All\n', 'bogus', 'ex plicit', 'trim,', '\ttrim', 'trim\x0b', '', '  ', '\n']
 RETRIEVE = ('get', 'getcf', 'disp', 'sub')
 
 
